@@ -28,7 +28,7 @@ OPS = ['create', 'create_key_pair', 'register_sym', 'register_cert', 'register_o
 
 def plan(tier):
     return {
-        'level': 'fault_enumeration', 'shards': 16, 'budget_s': 100 if tier == 'quick' else 1200,
+        'level': 'fault_enumeration', 'shards': 16, 'budget_s': 300 if tier == 'quick' else 1800,
         'exhaustive': True,
         'rule': 'for each of %d state-changing operations (as the first or the second request of a two-request '
                 'sequence on a prepared store) a dry run counts the events, then for every k a forked child runs the '
@@ -60,6 +60,10 @@ def cases(tier, seed):
         for op in OPS:
             for pos in (0, 1):
                 cs.append({'op': op, 'pos': pos, 'cls': 'sys'})
+    else:
+        # a sample of the syscall-level class on every change: death between SQLite's own writes of one commit
+        for op, pos in (('create_key_pair', 0), ('destroy_rich', 0), ('register_split', 1), ('modify_name', 0)):
+            cs.insert(0, {'op': op, 'pos': pos, 'cls': 'sys'})
     return cs
 
 
@@ -411,7 +415,9 @@ def run_case(ctx, case):
         # crash: the twin "k+1 applied" (observed through a fresh engine on the file) must differ from "k applied"
         for i, st in enumerate(statuses):
             ctx.count('acknowledged_effects_checked')
-            if st == 'S' and obs_equal(twins[i], twins[i + 1]):
+            # (what clients can see: objects, their attributes and the listings - a bumped identifier counter alone is
+            # not an effect)
+            if st == 'S' and twins[i]['objects'] == twins[i + 1]['objects'] and twins[i]['locate'] == twins[i + 1]['locate']:
                 which = case['op'] if i == main_index else 'companion'
                 ctx.violation('%s|none|lost-ack' % which,
                               'request %d (%s) was acknowledged as successful, but a fresh engine on the same file shows no '
